@@ -298,7 +298,7 @@ NoScreeningNoInduced == ~Screening => (kcalls = 0 /\ Aind = Zero /\ vel = Zero)
 LinksFollowIterate == (pc = "euler" /\ Screening) => linkA = Aind
 VelocityRestartsEachStep == [][(pc = "begin" /\ pc' = "test") => vel' = Zero]_vars
 
-TypeOK == /\ pc \in {"begin", "test", "links", "euler", "induced", "finish", "raised"}
-          /\ why \in {"none", "euler", "screening"} /\ (pc = "raised" <=> why # "none")
+TypeOK == /\ pc \in {"begin", "test", "links", "euler", "induced", "finish", "raised", "dead"}   \* "dead": trace module, after the raise was observed
+          /\ why \in {"none", "euler", "screening"} /\ (pc \in {"raised", "dead"} <=> why # "none")
           /\ step \in 0..MaxSteps /\ retries >= 0 /\ s >= 0 /\ Len(dpsi) <= Window + 1
 =============================================================================
